@@ -156,6 +156,10 @@ class ConcurrentStreamTestSuite:
                 process_result = testtools.ExtendedToStreamDecorator(
                     testtools.TimestampingStreamResult(to_queue)
                 )
+                # Start the worker's result before its thread exists: if it was
+                # started by the thread, a stop() issued while run() is being
+                # aborted could be undone by the reset that startTestRun does.
+                process_result.startTestRun()
                 runner_thread = threading.Thread(
                     target=self._run_test, args=(test, process_result, route_code)
                 )
@@ -181,7 +185,6 @@ class ConcurrentStreamTestSuite:
             raise
 
     def _run_test(self, test, process_result, route_code):
-        process_result.startTestRun()
         try:
             try:
                 test.run(process_result)
